@@ -1076,22 +1076,24 @@ def two_blacklist_case(rec, rng):
                           {"!sat": ["A"], "!mode": ["test", "zz"]}])
         selected = {p for p, (sat, mode, k) in files.items() if sat != "A" and mode != "test"}
         case = {"kind": "two-blacklist", "filters": flt}
+        # one caller-owned dictionary handed to all three operations (the oracle keeps its own record)
+        own = {k: (list(v) if isinstance(v, list) else v) for k, v in flt.items()}
         rec.ev()
         rec.count("two_blacklist.cases")
         s0, s1 = day - D(days=1), day + D(days=2)
         try:
-            fs.delete(dry_run=True, start=s0, end=s1, filters=dict(flt))
+            fs.delete(dry_run=True, start=s0, end=s1, filters=own)
             if listing(root) != set(files):
                 rec.violation("tree-differs", case, {"after": "delete(dry_run=True)"})
                 return
             tgt = fs.move(root + "/tgt/{mode}/{sat}_{year}{doy}_{hour}{minute}{second}-{end_hour}{end_minute}"
-                                 "{end_second}.pkl", copy=True, start=s0, end=s1, filters=dict(flt))
+                                 "{end_second}.pkl", copy=True, start=s0, end=s1, filters=own)
             copied = {p for p in listing(root) if "/tgt/" in p}
             if len(copied) != len(selected) or (listing(root) - copied) != set(files):
                 rec.violation("tree-differs", case, {"after": "copy of a selection by two black-list filters",
                                                      "copied": len(copied), "selected": len(selected)})
                 return
-            fs.delete(start=s0, end=s1, filters=dict(flt))
+            fs.delete(start=s0, end=s1, filters=own)
             left = listing(root) - copied
             if left != set(files) - selected:
                 rec.violation("tree-differs", case,
@@ -1184,6 +1186,54 @@ def linked_member_case(rec, rng):
         shutil.rmtree(root, ignore_errors=True)
 
 
+def other_filesystem_move_case(rec, rng):
+    """Environment: the target of a plain move / copy lies on another file system than the source (an
+    archive disk): every selected file arrives with its content, a move leaves none behind."""
+    from typhon.files import FileSet, FileHandler
+    from vt.props.c12 import other_filesystem_dir
+    root = scratch_dir("c11x")
+    other = None
+    try:
+        other = other_filesystem_dir(root)
+        if other is None:
+            rec.count("other_filesystem.unavailable")
+            return
+        tmpl = root + "/src/{year}{month}{day}_{hour}{minute}{second}-{end_hour}{end_minute}{end_second}.pkl"
+        fs = FileSet(path=tmpl, name="src", handler=FileHandler(reader=pkl_read, writer=pkl_write),
+                     worker_type="thread")
+        day = dt.datetime(2020, rng.randrange(1, 13), rng.randrange(1, 28))
+        n = rng.choice([3, 5])
+        for k in range(n):
+            t0 = day + D(minutes=43 * k)
+            fs[t0:t0 + D(minutes=10)] = {"id": k}
+        case = {"kind": "other-filesystem-move", "n": n}
+        rec.ev()
+        rec.count("other_filesystem.move_cases")
+        ttmpl = other + "/{year}/{doy}_{hour}{minute}{second}-{end_hour}{end_minute}{end_second}.pkl"
+        try:
+            for copy in (True, False):
+                fs.move(ttmpl, copy=copy, start=day - D(days=1), end=day + D(days=2))
+                arrived = sorted(raw_read_plain(q)["id"] for q in listing(other))
+                left = sorted(raw_read_plain(q)["id"] for q in listing(root + "/src"))
+                if arrived != list(range(n)) or left != (list(range(n)) if copy else []):
+                    rec.violation("tree-differs", case, {"after": "copy" if copy else "move", "arrived": arrived,
+                                                         "left_in_source": left,
+                                                         "why": "target on another file system"})
+                    return
+                if copy:
+                    shutil.rmtree(other)
+                    os.mkdir(other)
+            rec.nontriv(["other-filesystem-move", n], n)
+        except Exception as exc:
+            rec.violation("operation-exception", case, {"op": "move to another file system",
+                                                        "exception": repr(exc),
+                                                        "trace": traceback.format_exc()[-1200:]})
+    finally:
+        shutil.rmtree(root, ignore_errors=True)
+        if other:
+            shutil.rmtree(other, ignore_errors=True)
+
+
 def raw_read_plain(path):
     with open(path, "rb") as fh:
         return pickle.loads(fh.read())
@@ -1199,6 +1249,7 @@ def run_shard(spec, rec):
         default_placeholder_case(rec, rng_for(spec["seed"], "c11-default", spec["shard"]))
         two_blacklist_case(rec, rng_for(spec["seed"], "c11-two-bl", spec["shard"]))
         linked_member_case(rec, rng_for(spec["seed"], "c11-links", spec["shard"]))
+        other_filesystem_move_case(rec, rng_for(spec["seed"], "c11-otherfs", spec["shard"]))
     except Exception as exc:
         rec.inconc("harness error: %r %s" % (exc, traceback.format_exc()[-1200:]))
     for i in range(spec["n"]):
@@ -1217,6 +1268,9 @@ def replay(case, rec):
     elif case.get("kind") == "two-blacklist":
         for k in range(4):
             two_blacklist_case(rec, rng_for(k, "replay"))
+    elif case.get("kind") == "other-filesystem-move":
+        for k in range(3):
+            other_filesystem_move_case(rec, rng_for(k, "replay"))
     elif case.get("kind") == "linked-members":
         for k in range(4):
             linked_member_case(rec, rng_for(k, "replay"))
